@@ -57,7 +57,7 @@ void env_on_write(uint8_t byte);
 class TapeTransport : public Transport {
  public:
   TapeTransport() : Transport("tape", 0), m_len(0), m_nev(0), m_nfault(0), m_valid(true), m_allowErrors(true), m_allowWriteErrors(true),
-    m_bytesLeft(255), m_forced(false), m_noTimeout(false), m_forcedByte(0), m_nrderr(0) {}
+    m_bytesLeft(255), m_forced(false), m_noTimeout(false), m_forcedByte(0), m_nrderr(0), m_lastTimeout(0) {}
   string getTransportInfo() const override { return "tape"; }
   result_t open() override { return RESULT_OK; }
   void close() override { m_valid = false; }
@@ -75,7 +75,7 @@ class TapeTransport : public Transport {
     if (m_len == 0) {
       uint8_t choice = vp_nondet_u8();
       if (choice == 1 && m_allowErrors && m_bytesLeft == 0) { log(EV_RDERR, 0, 0); return RESULT_ERR_DEVICE; }
-      if ((choice == 0 && !m_noTimeout) || m_bytesLeft == 0) { env_now_ms += timeout; log(EV_TIMEOUT, 0, 0); return RESULT_ERR_TIMEOUT; }  // a timed-out read took 'timeout' ms
+      if ((choice == 0 && !m_noTimeout) || m_bytesLeft == 0) { env_now_ms += timeout; if (m_lastTimeout == 0) m_lastTimeout = timeout; log(EV_TIMEOUT, 0, 0); return RESULT_ERR_TIMEOUT; }  // a timed-out read took 'timeout' ms
       if (choice == 1 && m_allowErrors) { log(EV_RDERR, 0, 0); return RESULT_ERR_DEVICE; }
       uint8_t n = static_cast<uint8_t>(1 + (choice >> 2) % ENV_MAXCHUNK);
       if (n > m_bytesLeft) n = m_bytesLeft;
@@ -115,6 +115,7 @@ class TapeTransport : public Transport {
   bool m_forced, m_noTimeout;  // harness-chosen next fresh byte / no timeouts (case splits of a step harness)
   uint8_t m_forcedByte;
   unsigned m_nrderr;  // read errors (not timeouts) so far
+  unsigned m_lastTimeout;  // timeout argument of the first read that timed out since the harness reset it to 0
 };
 
 #ifndef ENV_MAXMSG
